@@ -74,6 +74,24 @@ NEEDS = {
     "C10-r2-2": "a cancelled keyed periodic EventSource action preceded by two live global-scheduler actions at the same timestamp (raw peek in the batch loop)",
     "C11-r2-1": "a model whose build() adds sub-models and that then faults itself (ModelId read before build())",
     "C11-r2-2": "a Panic or NoRecipient from a model, then any further call (is_terminated set after the match, early returns skip it)",
+    "C12-r2-1": "close() landing between a push's position CAS and its stamp publication, with the receiver polling in that window (pop tests is_closed() instead of enqueue_pos == dequeue_pos | closed)",
+    "C12-r2-2": "mailbox closed, then len() read (deadlock report): `!index_mask` includes the closed flag, spurious carry",
+    "C13-r2-1": "CancelToken::cancel landing during a poll that returns Pending with no concurrent wake-up (post-poll CLOSED test removed)",
+    "C13-r2-2": "last waker consumed by wake() by value while the task is scheduled/being polled (release decision taken on the pre-wake state)",
+    "C14-r2-1": "a reply iterator dropped before exhaustion, then a later query on the same requestor (slot clearing moved to the cancelled-Drop path)",
+    "C14-r2-2": "a clone refreshing its cache while another clone calls connect() on another thread (epoch bumped before taking the mutex)",
+    "C15-r2-1": "a reader on another thread whose whole read falls between the writer's odd and even sequence stores (odd-sequence early return removed)",
+    "C15-r2-2": "any reader concurrent with a write (`let _ = WriteGuard::new(..)` drops the guard at once; the stores happen outside the odd window)",
+    "C16-r2-1": "a model that owns sub-models raising an error or named in a deadlock report (ModelId read before build() registers the children)",
+    "C16-r2-2": "a model whose init() sends more events to a peer than the peer's mailbox holds while the peer's handler waits on it (notify_one after the handler)",
+    "C17-r2-1": "EventBuffer written past capacity (truncate drops from the back: newest retained event evicted instead of the oldest)",
+    "C17-r2-2": "EventSlot written twice before a read (get_or_insert keeps the first value)",
+    "C18-r2-1": "step_until with a clock and a Scheduler handle on another thread: the final synchronize runs before the re-check/time write",
+    "C18-r2-2": "a lagging clock with a tolerance set and a step whose target equals the current time bound (tolerance test skipped when current_time == upper bound)",
+    "C19-r2-1": "a single-threaded simulation dropped inside a handler of another single-threaded simulation (ACTIVE_TASKS still points at the outer slab)",
+    "C19-r2-2": "output with >= 2 connections, a full target mailbox, simulation dropped while the broadcast is pending (ManuallyDrop released only when Completed)",
+    "C20-r2-1": ">= 2 items queued, pulls down to one survivor, then an insert with the survivor's key (pull rewinds next_epoch when len <= 1)",
+    "C20-r2-2": "an extract that empties the indexed queue, later inserts, then a retained older InsertKey (extract replaces the drained queue by a fresh one)",
     "C19-2": "output with >= 2 connections, a full target mailbox, simulation dropped while the broadcast is pending (ManuallyDrop not released)",
 }
 
